@@ -193,6 +193,26 @@ def check_ds(ctx, rng):
         back = dns.dnssec.make_ds_rdataset((mk(owner), cds_set), {"SHA256"})
         if int(back.rdtype) != 43 or any(int(d.rdtype) != 43 for d in back) or {d.digest for d in back} != {RD.ds_digest(owner, rdata, 2)}:
             ctx.violation("ds-from-cds-rdataset-wrong", f"rdataset type {int(back.rdtype)}", case)
+        # the owner given as a name relative to an origin (a Name object or text) is the same owner
+        if len(owner) > 2 and dk.rdtype == dns.rdatatype.DNSKEY:
+            ctx.count("mon.ds_owner_relative_to_origin")
+            cut = rng.randrange(1, len(owner) - 1)
+            rel, org = mk(owner[:cut]), mk(owner[cut:])
+            for how, nm in (("Name", rel), ("text", rel.to_text())):
+                try:
+                    ds_rel = dns.dnssec.make_ds(nm, dk, "SHA256", origin=org)
+                except Exception as e:
+                    ctx.violation(f"ds-with-relative-owner-and-origin-raised:{how}:" + core.exc_sig(e), f"owner {rel} origin {org}: {e!r}", case)
+                    break
+                if ds_rel.digest != RD.ds_digest(owner, rdata, 2):
+                    ctx.violation(f"ds-digest-differs:relative-owner:{how}", f"owner {rel} origin {org}", case)
+                    break
+        # the published-key twin of the set (CDNSKEY): same fields, its own type, for the set and for every record
+        if dk.rdtype == dns.rdatatype.DNSKEY:
+            ctx.count("mon.cdnskey_rdataset_type")
+            cset = dns.dnssec.dnskey_rdataset_to_cdnskey_rdataset(rds)
+            if int(cset.rdtype) != 60 or any(int(d.rdtype) != 60 for d in cset) or [d.to_wire() for d in cset] != [d.to_wire() for d in rds]:
+                ctx.violation("dnskey_rdataset_to_cdnskey_rdataset-returns-other-type", f"rdataset type {int(cset.rdtype)}, records {sorted({int(d.rdtype) for d in cset})}", case)
         ctx.seen(("ds", alg, len(key) % 2, len(owner)))
     except Exception as e:
         ctx.violation("ds-raised:" + core.exc_sig(e), f"rdata={rdata.hex()}: {e!r}", case)
